@@ -871,6 +871,11 @@ func verifTierBReuse(set string, maxCycle int, fetchFirst int, sameDC int) {
 			w.kb = kb2
 		}
 	}
+	// the reference for the later call is an instance that has JUST been created ("as if the instance had just been
+	// created"): whatever an earlier call may have left in the old reference instance's nodes or rule entries is gone
+	if ref2, err := w.lib.NewKnowledgeBaseInstance("T", "1"); err == nil {
+		w.ref = ref2
+	}
 	w.fired = nil
 	pre2 := snapFact(w.f, w.topN())
 	preOut2 := w.out.V
